@@ -6,7 +6,7 @@ import families as F
 
 # antecedent tags counted per property; the ones in REQUIRED must be exercised or the run is vacuous
 TAGS = {
-    "C01": ["C01-rest", "RA-events"],
+    "C01": ["C01-rest"],
     "C02": ["C02-held", "C02-ineffect", "C02-release", "RA-events"],
     "C03": ["C03-cand", "C03-cand-several", "C03-mentioned", "C03-passthrough", "C03-dup-press"],
     "C04": ["C04-keypress", "C04-mods-down-before"],
@@ -17,7 +17,9 @@ TAGS = {
     "C19": ["C19-events", "RA-events"],
     "C14": [],
 }
-WITH_RA = {"C01", "C02", "C19", "C14"}
+# release_all is explored as an operation of its own where the property speaks about it (C19: every release-all batch; C02: a release never
+# presses) - not for C01, whose statement is about physical releases only (what release_all leaves behind is C06's business)
+WITH_RA = {"C02", "C19", "C14"}
 
 SIZES = {
     # per_pair, triples, seeded pairs, seeded triples
